@@ -47,12 +47,15 @@ def flagset(name, beh):
                 "-generate_leaf_getters", "-generate_leaf_setters", "-yangpresence", "-annotations", "-include_model_data",
                 "-include_descriptions", "-typedef_enum_with_defmod"]
     if name == "alt":
-        return (["-generate_simple_unions", "-generate_ordered_maps=false", "-skip_enum_deduplication", "-typedef_enum_with_defmod",
+        return (["-generate_simple_unions", "-generate_ordered_maps=false", "-generate_populate_defaults", "-skip_enum_deduplication", "-typedef_enum_with_defmod",
                  "-enum_suffix_for_simple_union_enums"] + (["-ignore_shadow_schema_paths", "-shorten_enum_leaf_names"] if comp else []))
+    if name == "ann":
+        return (["-generate_simple_unions", "-annotations", "-yangpresence", "-generate_getters", "-generate_leaf_getters"] +
+                (["-ignore_shadow_schema_paths"] if comp else []))
     raise ValueError(name)
 
 
-FLAGSETS = ["min", "full", "alt"]
+FLAGSETS = ["min", "full", "alt", "ann"]
 
 
 def model_cases(work, tier, adv=False):
@@ -73,7 +76,7 @@ def select(cases, tier, seed, limit=None):
     thorough: every case with extras, the flag sets rotating, plus the no-extras cases with 'min'."""
     out = []
     for i, c in enumerate(cases):
-        fs = FLAGSETS[(i + seed) % 3]
+        fs = FLAGSETS[(i + seed) % len(FLAGSETS)]
         out.append((c, fs))
     if limit:
         # keep every (shape, behaviour) pair represented: stride sampling over the sorted list
@@ -289,6 +292,9 @@ def check_structs(c, d, viol, drift=None):
     n_fields = 0
     for sp in sorted(want_structs & got_structs):
         s = by_path[sp]
+        for f in s["fields"]:
+            if f["class"] == "annotation" and (f["tags"].get("ygotAnnotation") != "true" or not f["tags"].get("path", "").strip("|")):
+                viol.append(dict(property="C26", sig=c.sig("annotation-tag"), detail="%s: annotation field %s.%s has the tags %s (no ygotAnnotation:\"true\" / path)" % (c.label(), s["name"], f["name"], f["tags"]), case=c.case()))
         real = [f for f in s["fields"] if f["class"] != "annotation"]
         # index the real fields by their set of path alternatives
         rmap = {}
